@@ -1,7 +1,81 @@
-(* C18 -- the property theorems and nothing else (under construction). *)
+(* C18 -- the property theorems and nothing else.  Each is closed by `exact <lemma>`; vlib runs Print Assumptions on
+   every one of them on every check run.
+   Vocabulary: `transcript v backend page min_buffer input chunks ops` runs the window model of util::FilePiece
+   (FilePieceModel.v) and returns, for every call, its result and Offset() after it; `spec_run` computes the same list
+   from the input bytes alone (FilePieceSpec.v); `chunks` is the oracle of read() lengths; `repaired` / `original`
+   select the code after / before the three fix: commits. *)
 From Coq Require Import List NArith Arith.
-From Kenlm Require Import C18.FilePieceModel C18.FilePieceSpec.
+From Kenlm Require Import C18.FilePieceModel C18.FilePieceSpec C18.WindowProofs C18.OpsProofs C18.MainProofs C18.Witnesses.
 Import ListNotations.
 
-Theorem C18_spec_get_consumes_one : forall b r, spec_get (b :: r) = (RChar b, r).
-Proof. reflexivity. Qed.
+(* MAIN: for every input, every read() chunking, every min_buffer, every page size, all three backends and every
+   finite sequence of calls, the values AND the offsets reported are those the specification computes from the whole
+   input (agreement = equality, except that an exhausted input may be answered by a failure instead of "end"). *)
+Theorem C18_window_refines_spec : forall b P min_buffer data chunks ops, 0 < P ->
+  exists tr, transcript repaired b P min_buffer data chunks ops = Some tr /\
+             Forall2 obs_agree (spec_run (length data) ops data) tr.
+Proof. exact (window_refines_spec repaired eq_refl eq_refl eq_refl). Qed.
+
+(* ... in particular two runs that differ only in backend / chunking / min_buffer agree with the same list *)
+Theorem C18_transparent : forall b1 b2 P mb1 mb2 data chunks1 chunks2 ops, 0 < P ->
+  exists tr1 tr2, transcript repaired b1 P mb1 data chunks1 ops = Some tr1 /\
+                  transcript repaired b2 P mb2 data chunks2 ops = Some tr2 /\
+                  Forall2 obs_agree (spec_run (length data) ops data) tr1 /\
+                  Forall2 obs_agree (spec_run (length data) ops data) tr2 /\
+                  map snd tr1 = map snd tr2.
+Proof. exact transparent. Qed.
+
+(* ReadLine / ReadDelimited / ReadWordSameLine / get / peek sequences: the results are EQUAL to the specification's *)
+Theorem C18_exact_ops_equal : forall b P min_buffer data chunks ops, 0 < P -> forallb exact_op ops = true ->
+  exists tr, transcript repaired b P min_buffer data chunks ops = Some tr /\
+             map fst tr = map fst (spec_run (length data) ops data).
+Proof. exact exact_ops_equal. Qed.
+
+(* once the input is exhausted every further call reports end / fails / returns no data; the offset stays put *)
+Theorem C18_after_eof : forall total ops s, Inv total s -> rest s = [] ->
+  Forall (fun x => no_data (fst x) /\ snd x = total) (run repaired ops s).
+Proof. exact (after_eof repaired eq_refl eq_refl eq_refl). Qed.
+
+(* a token is never split, merged or lost at a window boundary: n calls of ReadDelimited return the first n maximal
+   runs of non-space bytes of the input, in order, then end of input *)
+Theorem C18_no_split_merge : forall b P min_buffer data chunks n, 0 < P ->
+  exists tr, transcript repaired b P min_buffer data chunks (repeat ODelim n) = Some tr /\
+             map fst tr = expect_words n (words data).
+Proof. exact (no_split_merge repaired eq_refl eq_refl eq_refl). Qed.
+
+(* the loops terminate: the bound on Shift calls built into the model is never hit *)
+Theorem C18_fuel_never_exhausted : forall b P min_buffer data chunks ops tr, 0 < P ->
+  transcript repaired b P min_buffer data chunks ops = Some tr -> Forall (fun x => fst x <> ROutOfFuel) tr.
+Proof. exact (fuel_suffices repaired eq_refl eq_refl eq_refl). Qed.
+
+(* one Shift: the remaining input and Offset() are unchanged (part of Inv), the window grows or the end is found *)
+Theorem C18_shift_preserves_input : forall total s, Inv total s ->
+  if at_end s then shift repaired s = None
+  else exists s', shift repaired s = Some s' /\ Inv total s' /\ rest s' = rest s /\
+                  exists more, avail s' = avail s ++ more /\ (more <> [] \/ at_end s' = true).
+Proof. exact shift_preserves_input. Qed.
+
+(* ReadOrEOF (header of ReadFactory) delivers the amount asked for unless the data ends, whatever the read() sizes *)
+Theorem C18_read_or_eof_complete : forall amt data o g d o', read_or_eof amt data o = (g, d, o') ->
+  data = g ++ d /\ (length g = amt \/ d = []).
+Proof. exact read_or_eof_complete. Qed.
+
+(* ---- the code before the repairs (faithful model, variant `original`) ---- *)
+(* F11: Offset() under-reports after a compaction in read mode *)
+Theorem C18_offset_read_mode_refuted : exists data chunks ops tr,
+  transcript original BPipe 4096 1 data chunks ops = Some tr /\
+  map snd tr <> map snd (spec_run (length data) ops data) /\
+  map fst tr = map fst (spec_run (length data) ops data).
+Proof. exact offset_read_mode_refuted. Qed.
+
+(* F12: get()/peek() report end of file in the middle of a memory-mapped file *)
+Theorem C18_peek_eof_refuted : exists data ops tr,
+  transcript original BFile 4096 1 data [] ops = Some tr /\
+  In (REof, 8192) tr /\ length data = 12388.
+Proof. exact peek_eof_refuted. Qed.
+
+(* F13: whether ReadFloat accepts "NaN" depends on how much of the input is in the window *)
+Theorem C18_nan_window_dependent_refuted : exists data,
+  option_map (map fst) (transcript original BFile 4096 1 data [] [OFloat]) <>
+  option_map (map fst) (transcript original BPipe 4096 1 data [] [OFloat]).
+Proof. exact nan_window_dependent_refuted. Qed.
